@@ -315,9 +315,15 @@ def run(ctx):
                      'it a position, is it not located yet): not under a test on the context\'s own state (is this a named '
                      'context), which leaves errors raised at top level or re-created by an inner parser without line/column', 1)
     n_fl = 0
-    for q_, f_ in sorted(w.functions.items()):
-        if not q_.endswith('.__exit__'):
-            continue
+    exits_ = [(q_, f_) for q_, f_ in sorted(w.functions.items()) if q_.endswith('.__exit__')]
+    for q_, f_ in list(exits_):
+        # helpers of the same class that __exit__ hands the error to
+        for c_ in iter_own(f_):
+            if isinstance(c_, ast.Call) and is_self_attr(c_.func):
+                hq_ = q_[:-len('__exit__')] + c_.func.attr
+                if hq_ in w.functions and (hq_, w.functions[hq_]) not in exits_:
+                    exits_.append((hq_, w.functions[hq_]))
+    for q_, f_ in exits_:
         exn_ = {a_.arg for a_ in f_.args.args[1:]}
         chg = True
         while chg:
